@@ -71,7 +71,7 @@ Proof.
   intro c. unfold add_symbol.
   destruct (try_index (symbols c) (current_scope_nx c) id) as [nx|].
   - destruct (try_get (symbols c) nx) as [ex|].
-    + destruct (redefinition ex sym); [destruct (s_span sym); [apply R_refl|exact I]|].
+    + destruct (redefinition ex sym); [apply R_refl|].
       destruct (negb (sdata_eqb (s_data ex) (s_data sym))); [destruct (symtype_eqb (s_ty sym) TyVariable)|];
         apply R_frame; reflexivity.
     + destruct (symtype_eqb (s_ty sym) TyVariable); apply R_frame; reflexivity.
